@@ -95,8 +95,8 @@ CHECKS["C03"] = {
 }
 CHECKS["C02"] = {
 	"text": "Coordinate-transformed stream of the converting reader against its single-tile lookups: the flip/swap/clip call sequences of get_tile_data, get_bbox_tile_stream and its map_coord closure are extracted from the nightly MIR "
-		"for each of the 8 (flip_y, swap_xy, requested pyramid) assignments and z3 (thorough: also cvc5) decides, for every level, source box, requested box and tile, that a tile the stream delivers at coordinate c is the source tile the lookup at c consults, "
-		"and that it lies inside the requested box. The optimised stream paths are exactly what no test compares with lookups; a SAT model is replayed on the real reader over a 4x4 echo source.",
+		"for each of the 8 (flip_y, swap_xy, requested pyramid) assignments and z3 (thorough: also cvc5) decides, for every level, source box, requested box and tile, that the stream over a box delivers source tile p at coordinate c exactly when the lookup at c inside the box returns p (guards and clips of both paths included), "
+		"plus the per-path decomposition of C06. The optimised stream paths are exactly what no test compares with lookups; a SAT model is replayed on the real reader over a 4x4 echo source.",
 	"note": "Decides the converting reader only, on the coordinate level. Outside (stated in evidence): the trait's default stream (futures machinery: no CBMC verdict at a 2x1 box in 1500 s / 18 GB), the versatiles reader's chunked stream, "
 		"MBTiles SQL range query, pipeline operations, payload bytes (C04), multi-threaded execution (C14).",
 	"technique": "symbolic encoding of the compiler's MIR (nightly -Zunpretty=mir -> SMT-LIB2 bit-vectors), z3 / cvc5",
